@@ -28,6 +28,15 @@ REFUTATION = re.compile(
 DEFAULT_PTR_BYTES = int(os.environ.get("VERIF_PTR_BYTES", "8"))
 
 
+HELPER = re.compile(r"\b__(next_back|next|as_str|MIN|MAX|iter|names|range|try_from|from_str|into)\b")
+
+
+def helper_norm(text):
+    """auto-enabled helper items are emitted under `__<default name>`; the body is otherwise the
+    same template, so the double underscore is dropped before comparing bodies"""
+    return HELPER.sub(lambda m: m.group(1), text)
+
+
 def idx_lemma(repr_, bits, signed, proof, PTR_BYTES):
     if not signed:
         return "" if proof else "true,"
@@ -123,6 +132,13 @@ def assemble(spec, mod, entries, chosen, ptr_bytes=8):
                 problems.append("struct %s field %s: type %r outside the supported subset" % (st["canon"], f["name"], ty))
             emit("    pub %s: %s," % (f["name"], ty))
         emit("}")
+    # accessors for the MIN/MAX constants under the names this configuration gave them (R3)
+    emit("impl E {")
+    for feat, specfn in (("MIN", "min_v"), ("MAX", "max_v")):
+        nm = spec.item_name(feat) or "__" + feat
+        if nm != feat and any(c["name"] == nm for c in mod["consts"]):
+            emit("    #[verifier::external_body] pub fn %s() -> (e: E) ensures e.0 as int == %s(), e.valid() { unimplemented!() }" % (nm, specfn))
+    emit("}")
     # literal accessors (R9)
     lit_decls = []
     for k in included:
@@ -344,5 +360,21 @@ def run_layer_t(scratch, reprs=None, jobs=8, keep_dir=None, target=None, ptr_byt
                         v["raw"] = fns[k]["raw"][:400]
             # functions of the module that are not under contract (reported, not verified)
             entry["not_under_contract"] = sorted(k for k in fns if k not in (res or {}))
+            # structural forwarding obligation for the wrapper methods that stay outside Verus
+            # (fold / rfold take generic closures): the body must be exactly `self.inner.<same>(<same args>)`
+            fwd = {}
+            for k in entry["not_under_contract"]:
+                m_ = re.match(r"^(Iterator|DoubleEndedIterator|ExactSizeIterator)\[(EIter|ENames)\]::(\w+)$", k)
+                if not m_:
+                    continue
+                f = fns[k]
+                args = [a[0] for a in f["inputs"] if a[0] != "self"]
+                want = "{ self . inner . %s ( %s ) }" % (m_.group(3), " , ".join(args)) if args else "{ self . inner . %s ( ) }" % m_.group(3)
+                got = re.sub(r"\s+", " ", f["canon"]).replace("( )", "( )")
+                want_n = re.sub(r"\s+", " ", want)
+                fwd[k] = {"ok": got.replace("( )", "()") == want_n.replace("( )", "()"), "got": got[:200], "want": want_n}
+            entry["forwarding"] = fwd
+            import hashlib
+            entry["canon_hashes"] = {k: hashlib.sha1(helper_norm(s.repr + "|" + k + "|" + fns[k]["canon"]).encode()).hexdigest() for k in (res or {}) if k in fns}
             out["modules"][s.mod] = entry
     return out
